@@ -1932,6 +1932,16 @@ func (self *LockDB) doExpried(lock *Lock, forcedExpried bool, removeWaited bool)
 			lockManager.glock.Unlock()
 			return
 		}
+
+		if lock.ackCount != 0xff && lock.locked > 0 {
+			// an update of this hold still awaits its acknowledgement, its requester has not been
+			// answered: the expiry notice goes to that request and must not overtake its answer.
+			// Looked at again at the next tick (the acknowledgement, or the update's timeout, ends the wait)
+			lock.expriedTime = self.currentTime + 1
+			self.AddExpried(lock)
+			lockManager.glock.Unlock()
+			return
+		}
 	}
 
 	lockLocked := lock.locked
